@@ -151,10 +151,10 @@ Theorem oneseg_reload junk el h0 g bound ms :
      exists st1 loaded st2 r,
        load_sections_loop junk (length secs) (open_istream k file) [] (e_cls h') (e_enc h') (e_shoff h') (e_shentsize h')
                           0 (e_shnum h') true [] [] = Ok (st1, rev loaded, []) /\
-       Forall2 same_hdr (el_secs el') loaded /\
+       Forall2 (fun s x => same_hdr s x /\ s_index x = s_index s) (el_secs el') loaded /\
        load_segments_loop (S f) st1 [] loaded (e_enc h') (g_cls g') (e_phoff h') (e_phentsize h') 0 (e_phnum h') true [] [] =
          Ok (st2, [r], true, []) /\
-       same_phdr g' r /\ g_sections r = idxs).
+       same_phdr g' r /\ g_sections r = idxs /\ g_index r = g_index g').
 Proof.
   cbv zeta. intros Hh Hs Hnsec Hlen Hne Hos Hty Hnd HF Hauto Hdom Hb62 Hcls Hbg Hbh Hal Hbud Hidx Hnull Hdata Hident Heh Hes Hph Hgi Hes_eq
     Htls Hnz Hfree Hsne.
@@ -222,18 +222,20 @@ Proof.
   (* program header table *)
   assert (HLp : lenN (phdr_bytes (e_enc h') g') = phdr_size (g_cls g')) by apply lenN_phdr_bytes.
   pose proof (slice_full_len _ _ _ _ FP HLp ltac:(destruct (g_cls g'); cbn; lia)) as Hpin.
-  destruct (load_segments_loop_single junk st1 (e_enc h') (g_cls g') (e_phoff h') (e_phentsize h') loaded g' f F1 I1)
-    as (st2 & r & E2 & _ & _ & SP & GS & _ & _).
-  { rewrite Hpo. clearbody align. lia. } { rewrite C1. exact Hpin. } { reflexivity. } { exact Hpwf. } { rewrite C1. exact FP. }
-  exists st1, loaded, st2, r. split; [exact E1|]. split; [exact H2|]. rewrite Hpn. split; [exact E2|]. split; [exact SP|].
-  rewrite GS.
-  assert (Hsame : seg_members g' loaded = seg_members g' (el_secs el')).
-  { apply seg_members_same; [unfold same_phdr; repeat split; reflexivity|].
-    apply Forall2_of_nth; [exact (Forall2_lenN _ _ _ H2)|].
+  assert (H2i : Forall2 (fun s x => same_hdr s x /\ s_index x = s_index s) (el_secs el') loaded).
+  { apply Forall2_of_nth; [exact (Forall2_lenN _ _ _ H2)|].
     intros j x Hj. destruct (Forall2_nth_l _ _ _ H2 j x Hj) as (y & Hy & R). exists y. split; [exact Hy|]. split; [exact R|].
     rewrite (HIX j y Hy), N.add_0_l. pose proof (indexed_nth _ _ _ _ Hidx' Hj) as Ei. rewrite N.add_0_l in Ei. rewrite Ei.
-    unfold wrap16, wrap. apply N.mod_small. pose proof (nth_optN_lt _ _ _ Hj). lia. }
+    unfold wrap16, wrap. apply N.mod_small. pose proof (nth_optN_lt _ _ _ Hj) as Hlt. clear - Hlt Ln Hnsec. lia. }
+  destruct (load_segments_loop_single junk st1 (e_enc h') (g_cls g') (e_phoff h') (e_phentsize h') loaded g' f F1 I1)
+    as (st2 & r & E2 & _ & _ & SP & GS & _ & GI).
+  { rewrite Hpo. clearbody align. clear - Hbud Hb62. lia. } { rewrite C1. exact Hpin. } { reflexivity. } { exact Hpwf. } { rewrite C1. exact FP. }
+  exists st1, loaded, st2, r. split; [exact E1|]. split; [exact H2i|]. rewrite Hpn. split; [exact E2|]. split; [exact SP|].
+  split; [|rewrite GI, K10; symmetry; exact Hgi].
+  rewrite GS.
+  assert (Hsame : seg_members g' loaded = seg_members g' (el_secs el')).
+  { apply seg_members_same; [unfold same_phdr; repeat split; reflexivity|exact H2i]. }
   rewrite Hsame, MEMeq. apply map_wrap16_small.
   apply Forall_forall. intros i Hi.
-  destruct (Forall2_both_In _ _ _ _ i HF HF Hi) as (s & _ & P & _). pose proof (nth_optN_lt _ _ _ P). lia.
+  destruct (Forall2_both_In _ _ _ _ i HF HF Hi) as (s & _ & P & _). pose proof (nth_optN_lt _ _ _ P) as Hlt. clear - Hlt Hnsec. lia.
 Qed.
